@@ -42,8 +42,24 @@ def check(ob, extra_axioms=(), want_model=True, rlimit=None):
     ob.time = time.time() - t0
     return ob.result
   s.add(z3.Not(ob.goal))
+  # stage 1: z3 with a small deterministic budget; stage 2: cvc5 (far more stable on string
+  # goals); stage 3: z3 with the full budget.  sat/unsat from any stage is final.
+  s.set('rlimit', min(rlimit or RLIMIT, RLIMIT // 10))
   r = s.check()
   ob.backend = 'z3'
+  if r == z3.unknown:
+    ob.reason = s.reason_unknown()
+    r2 = run_cvc5(s.to_smt2())
+    if r2 == 'unsat':
+      ob.result, ob.backend = 'proved', 'cvc5'
+      ob.time = time.time() - t0
+      return ob.result
+    if r2 == 'sat':
+      ob.result, ob.backend = 'refuted', 'cvc5'
+      ob.time = time.time() - t0
+      return ob.result
+    s.set('rlimit', rlimit or RLIMIT)
+    r = s.check()
   if r == z3.unsat:
     ob.result = 'proved'
   elif r == z3.sat:
@@ -55,11 +71,6 @@ def check(ob, extra_axioms=(), want_model=True, rlimit=None):
   else:
     ob.result = 'unknown'
     ob.reason = s.reason_unknown()
-    r2 = run_cvc5(s.to_smt2())
-    if r2 == 'unsat':
-      ob.result, ob.backend = 'proved', 'cvc5'
-    elif r2 == 'sat':
-      ob.result, ob.backend = 'refuted', 'cvc5'
   ob.time = time.time() - t0
   return ob.result
 
